@@ -82,6 +82,7 @@ fn unary_ops() -> Vec<Op> {
         Op::Filter(Pred::Odd),
         Op::Filter(Pred::None),
         Op::Scan(0),
+        Op::Take(0),
         Op::Take(1),
         Op::Take(2),
         Op::Take(3),
